@@ -3,6 +3,7 @@
 package binary
 
 import (
+	"bytes"
 	"io"
 	"math"
 
@@ -489,6 +490,9 @@ func zzStreamRead(sr stream.Reader, t wire.Type) (*zzNode, error) {
 type zzOneShot struct {
 	b   []byte
 	off int
+	// eofWithData makes the read that delivers the last byte return io.EOF
+	// together with the data, as the io.Reader contract allows.
+	eofWithData bool
 }
 
 func (r *zzOneShot) Read(p []byte) (int, error) {
@@ -497,7 +501,40 @@ func (r *zzOneShot) Read(p []byte) (int, error) {
 	}
 	n := copy(p, r.b[r.off:])
 	r.off += n
+	if r.eofWithData && r.off == len(r.b) {
+		return n, io.EOF
+	}
 	return n, nil
+}
+
+// zzEOFReaderAt is an io.ReaderAt that returns io.EOF together with a full
+// read that ends exactly at the end of the input (allowed by the contract).
+type zzEOFReaderAt struct{ b []byte }
+
+func (r *zzEOFReaderAt) ReadAt(p []byte, off int64) (int, error) {
+	if off < 0 || off >= int64(len(r.b)) {
+		return 0, io.EOF
+	}
+	n := copy(p, r.b[off:])
+	if n < len(p) || int(off)+n == len(r.b) {
+		return n, io.EOF
+	}
+	return n, nil
+}
+
+// zzWarmFail leaves the codec's pooled objects in the state a busy process
+// would: k failed decodes of a truncated nested container, then one success.
+func zzWarmFail(k int) {
+	// list<list<list<binary>>> cut inside the innermost length prefix: the
+	// failure happens while skipping, three levels deep
+	trunc := []byte{0x0f, 0, 0, 0, 1, 0x0f, 0, 0, 0, 1, 0x0b, 0, 0, 0, 1, 0, 0}
+	for i := 0; i < k; i++ {
+		v, err := Default.Decode(bytes.NewReader(trunc), wire.TList)
+		if err == nil {
+			wire.EvaluateValue(v)
+		}
+	}
+	Default.Decode(bytes.NewReader([]byte{0}), wire.TStruct)
 }
 
 // zzChunky is a non-seekable reader whose first `free` Reads each return an
